@@ -825,6 +825,69 @@ func init() {
 
 func init() {
 	eng.Register(&eng.Scenario{
+		Name: "csync-release-effective", Props: []string{"C01", "C02"}, MustFinish: true, ObsNames: stdObs,
+		Doc:   "Mutex / RWMutex (choice), lock taken through TryLock or Lock (choice): thread A releases and at once tries TryLock(write) again while thread B makes one TryLock attempt (any mode) at any moment: the holder stops holding at its first release call, so if B never acquired anything A's second attempt must succeed",
+		Quick: eng.Bounds{PB: 2}, Thorough: eng.Bounds{PB: 4},
+		Body: func() {
+			bg := context.Background()
+			viaTry := vsched.Choose(2) == 1
+			const cOkA, cOkB = 200, 201
+			if vsched.Choose(2) == 0 {
+				var m csync.Mutex
+				var rel func()
+				if viaTry {
+					rel, _ = m.TryLock()
+				} else {
+					rel, _ = m.Lock(bg)
+				}
+				acquired(true)
+				T("A", func() {
+					releasing(true)
+					rel()
+					r, ok := m.TryLock()
+					if vsched.CtrSet(cOkA, b2i(ok)); ok {
+						r()
+					}
+				})
+				T("B", func() {
+					r, ok := m.TryLock()
+					if vsched.CtrSet(cOkB, b2i(ok)); ok {
+						r()
+					}
+				})
+			} else {
+				var m csync.RWMutex
+				hw := vsched.Choose(2) == 0
+				bw := vsched.Choose(2) == 0
+				var rel func()
+				if viaTry {
+					rel, _ = m.TryLock(hw)
+				} else {
+					rel, _ = m.Lock(bg, hw)
+				}
+				acquired(hw)
+				T("A", func() {
+					releasing(hw)
+					rel()
+					r, ok := m.TryLock(true)
+					if vsched.CtrSet(cOkA, b2i(ok)); ok {
+						r()
+					}
+				})
+				T("B", func() {
+					r, ok := m.TryLock(bw)
+					if vsched.CtrSet(cOkB, b2i(ok)); ok {
+						r()
+					}
+				})
+			}
+			vsched.Settle()
+			if vsched.Ctr(cOkA) == 0 && vsched.Ctr(cOkB) == 0 {
+				fail("C01.held-after-release", "A released its lock and tried TryLock(write) at once: refused, although the only other thread never acquired the lock (its single TryLock was refused too): the lock outlived its holder's first release call")
+			}
+		},
+	})
+	eng.Register(&eng.Scenario{
 		Name: "csync-deadline", Props: []string{"C02", "C01"}, MustFinish: true, ObsNames: stdObs,
 		Doc:   "Mutex and RWMutex: a holder behind a gate, waiters whose context expires (deadline context, not a cancel) while they are parked or on their way in; they must return context.Canceled and leave no trace",
 		Quick: eng.Bounds{PB: 2}, Thorough: eng.Bounds{PB: 3},
